@@ -39,7 +39,8 @@ theorem clampToBound_tie (box : Bound α) (p : Pt α) :
     by_cases h4 : y > box.hi.y <;> simp [h1, h2, h3, h4]
 
 theorem all_translated_ClipGo : Generated.ClipGo.translated =
-    ["bitCode", "bitCodeOpen", "intersect", "clampToBound", "clipBound"] := by
+    ["bitCode", "bitCodeOpen", "intersect", "clampToBound", "clipBound", "clipMultiPoint", "clipRing", "clipPolygon",
+     "clipMultiPolygon"] := by
   decide
 
 end Orb.C07Tie
